@@ -1,6 +1,6 @@
 (* Prop_C04 — the normal operator A.N is A^H A. *)
 From Coq Require Import ZArith List Bool.
-From SV Require Import lib.Scalar lib.BigSum lib.NdArray model.Linop proofs.LinopTheory proofs.LinopAlgebra.
+From SV Require Import lib.Scalar lib.BigSum lib.NdArray model.Linop proofs.LinopTheory proofs.LinopAlgebra proofs.LinopLeavesA proofs.LinopNormal.
 (* gen.Gen_linop_table: the _adjoint_linop / _normal_linop table GENERATED from linop.py, with lemmas gen_*_ok stating
    that it equals the hand model's adj / normal; importing it makes those lemmas part of this property's proof cone *)
 From SV Require gen.Gen_linop_table.
@@ -47,3 +47,66 @@ Example C04_overlapping_blocks_use_AHA :
   has_default_normal (ArrayToBlocks [6] [3] [1]) = true /\ has_default_normal (ArrayToBlocks [6] [3] [3]) = false /\
   has_default_normal (BlocksToArray [6] [2] [3]) = false /\ has_default_normal (BlocksToArray [6] [3] [2]) = true.
 Proof. vm_compute. auto. Qed.
+
+(* ---- every shortcut justified: isometries of Transpose / Circshift / tiling and non-overlapping blocks (proofs/LinopNormal.v) ---- *)
+
+
+(* every class of _normal_linop: A.N acts as A^H A on the input box (FFT/IFFT under unitarity of the oracle, C05) *)
+Theorem C04_normal_is_AHA :
+  forall (R : StarRing) arr scal orc A (x : list Z -> R) idx,
+    wf A = true -> normal_proved A = true -> fft_unitary R orc -> inbox (ishape_of A) idx ->
+    D R arr scal orc (normal A) x idx = D R arr scal orc (adj A) (D R arr scal orc A x) idx.
+Proof. exact normal_correct. Qed.
+Print Assumptions C04_normal_is_AHA.
+
+Theorem C04_normal_is_AHA_no_oracle :
+  forall (R : StarRing) arr scal orc A (x : list Z -> R) idx,
+    wf A = true -> normal_proved A = true -> no_fft A = true -> inbox (ishape_of A) idx ->
+    D R arr scal orc (normal A) x idx = D R arr scal orc (adj A) (D R arr scal orc A x) idx.
+Proof. exact normal_correct_no_oracle. Qed.
+Print Assumptions C04_normal_is_AHA_no_oracle.
+
+Theorem C04_transpose_isometry :
+  forall (R : StarRing) arr scal orc i axes (x : list Z -> R) idx,
+    match axes with None => True | Some ax => is_perm (length i) (map (fun a => a mod lenZ i) ax) end ->
+    inbox i idx ->
+    D R arr scal orc (adj (Transpose i axes)) (D R arr scal orc (Transpose i axes) x) idx = x idx /\
+    D R arr scal orc (normal (Transpose i axes)) x idx =
+    D R arr scal orc (adj (Transpose i axes)) (D R arr scal orc (Transpose i axes) x) idx.
+Proof. exact normal_transpose. Qed.
+Print Assumptions C04_transpose_isometry.
+
+Theorem C04_circshift_isometry :
+  forall (R : StarRing) arr scal orc s sh ax (x : list Z -> R) idx,
+    wf (Circshift s sh ax) = true -> inbox s idx ->
+    D R arr scal orc (adj (Circshift s sh ax)) (D R arr scal orc (Circshift s sh ax) x) idx = x idx /\
+    D R arr scal orc (normal (Circshift s sh ax)) x idx =
+    D R arr scal orc (adj (Circshift s sh ax)) (D R arr scal orc (Circshift s sh ax) x) idx.
+Proof. exact normal_circshift. Qed.
+Print Assumptions C04_circshift_isometry.
+
+Theorem C04_tiling_blocks_isometry :
+  forall (R : StarRing) arr scal orc i b s (x : list Z -> R) idx,
+    wf (ArrayToBlocks i b s) = true -> blocks_tile i b s = true -> block_dims_ok i b s = true ->
+    inbox (ishape_of (ArrayToBlocks i b s)) idx ->
+    D R arr scal orc (adj (ArrayToBlocks i b s)) (D R arr scal orc (ArrayToBlocks i b s) x) idx = x idx.
+Proof. exact array_to_blocks_tile_iso. Qed.
+Print Assumptions C04_tiling_blocks_isometry.
+
+Theorem C04_nonoverlapping_blocks_isometry :
+  forall (R : StarRing) arr scal orc o b s (y : list Z -> R) idx,
+    wf (BlocksToArray o b s) = true -> blocks_no_overlap b s = true -> block_dims_ok o b s = true ->
+    inbox (ishape_of (BlocksToArray o b s)) idx ->
+    D R arr scal orc (adj (BlocksToArray o b s)) (D R arr scal orc (BlocksToArray o b s) y) idx = y idx.
+Proof. exact blocks_to_array_no_overlap_iso. Qed.
+Print Assumptions C04_nonoverlapping_blocks_isometry.
+
+(* the side conditions are necessary: exact evaluation on Z with x = all ones *)
+Example C04_overlap_gram_is_not_identity :
+  let DZ := D ZRing (fun _ _ => 0) (fun _ => 0) (fun _ x => x) in
+  let ones : list Z -> ZRing := fun _ => 1 in
+  tabulate [6] (DZ (adj (ArrayToBlocks [6] [3] [1])) (DZ (ArrayToBlocks [6] [3] [1]) ones)) = [1; 2; 3; 3; 2; 1] /\
+  tabulate [6] (DZ (normal (ArrayToBlocks [6] [3] [1])) ones) = [1; 2; 3; 3; 2; 1] /\
+  tabulate [7] (DZ (adj (ArrayToBlocks [7] [3] [3])) (DZ (ArrayToBlocks [7] [3] [3]) ones)) = [1; 1; 1; 1; 1; 1; 0] /\
+  tabulate [2; 3] (DZ (adj (BlocksToArray [6] [3] [2])) (DZ (BlocksToArray [6] [3] [2]) ones)) = [1; 1; 2; 2; 1; 1].
+Proof. vm_compute. repeat split; reflexivity. Qed.
